@@ -349,7 +349,7 @@ let mout_of x = match x with
   | L [A "ok"; k; id] -> OutOk (num k, num id) | L [A "err"; t] -> OutErr (num t) | _ -> raise (Bad "mout")
 let chunks_of x = List.map (fun c -> List.map mitem_of (lst c)) (tagged "chunks" x)
 let run_kmerge args = match args with
-  | [A rev; chunks; ncalls] -> with_panic (fun emit ->
+  | [A rev; chunks; ncalls] | [A rev; chunks; ncalls; _] -> with_panic (fun emit ->
       let r = ok (merger_calls (rev = "1") (nat_ ncalls) { m_chunks = chunks_of chunks; m_heap = []; m_init = false }) in
       emit (L (A "calls" :: List.map (function Some o -> sx_mout o | None -> A "none") r)))
   | _ -> raise (Bad "kmerge args")
@@ -366,6 +366,13 @@ let run_xsort args = match args with
       emit (L [A "len"; anat n]);
       emit (L (A "out" :: List.map sx_mout out)))
   | _ -> raise (Bad "xsort args")
+(* two sorts on one sorter object, results consumed interleaved: the sorter keeps no state between calls in the model *)
+let run_xsort2 args = match args with
+  | [cs; th; comp; rev; a; b] ->
+    (match run_xsort [cs; th; comp; rev; a], run_xsort [cs; th; comp; rev; b] with
+     | L (A "r" :: ra), L (A "r" :: rb) -> L (A "r" :: (ra @ rb))
+     | _ -> raise (Bad "xsort2"))
+  | _ -> raise (Bad "xsort2 args")
 let run_tmpchk args = match args with
   | [cfg; before; during; after] ->
     let names x = List.map (fun a -> bytes_of_hex (atom a)) x in
@@ -395,6 +402,7 @@ let run_case (x : sexp) : sexp =
   | L (A "kmerge" :: args) -> run_kmerge args
   | L (A "kmergechk" :: args) -> run_kmergechk args
   | L (A "xsort" :: args) -> run_xsort args
+  | L (A "xsort2" :: args) -> run_xsort2 args
   | L (A "tmpchk" :: args) -> run_tmpchk args
   | L [A "xsortrec"; _t; cs; th; comp; recs] ->
     (* records of the crate's own types: the generator supplies the rank of each record's (chrom,start,end) as key *)
